@@ -317,7 +317,7 @@ def finding_zone_shard(arg):
 
 def run(ctx):
     nsh = 12
-    per = ctx.n(500, 8400)
+    per = ctx.n(450, 8400)
     res = Result()
     for impl in ('c', 'py'):
         n = per if impl == 'c' else per // 3
@@ -325,6 +325,8 @@ def run(ctx):
             res.merge(r)
     for impl in ('c', 'py'):
         args = [(m, st, impl) for m in METHODS for st in (False, True)]
+        if impl == 'py' and not ctx.thorough:
+            args = [('xml', True, impl), ('xhtml', False, impl), ('html', True, impl)]
         for r in pmap('harness.props.c01', 'matrix_shard', args, impl=impl, procs=6):
             res.merge(r)
         for r in pmap('harness.props.c01', 'finding_zone_shard', [impl], impl=impl, procs=1):
